@@ -244,6 +244,7 @@ impl Chain {
         let q = SimQuerier {
             markers: self.querier.markers.clone(),
             marker_required_attrs: self.querier.marker_required_attrs.clone(),
+            marker_status: self.querier.marker_status.clone(),
             attrs: self.querier.attrs.clone(),
             ..Default::default()
         };
